@@ -10,6 +10,7 @@ from __future__ import annotations
 import ast
 
 from mlmverif import cfg as cfgm
+from mlmverif import pat
 from mlmverif.core import (AnalysisError, Ctx, FuncInfo, is_self_attr, kwarg,
                            unparse, walk_no_nested)
 
@@ -71,17 +72,16 @@ def r1(ctx: Ctx):
              ' source exactly once (or no longer falls back to the whole'
              ' source): elements are processed twice or never', node=fi.node)
   mi = repo.func(IU, 'MultiplexIterator.__init__')
-  t = unparse(mi.node)
-  seq = 'itt.chain(*self._source_iterators)' in t and 'self._source_iterators[0]' in t
-  per_source = any(isinstance(c, ast.ListComp) and isinstance(c.elt, ast.Call) and unparse(c.elt.func) == 'iter_fn'
-                   and unparse(c.generators[0].iter) in ('iterators', 'self._source_iterators')
-                   and unparse(c.elt.args[0]) == unparse(c.generators[0].target)
-                   for c in walk_no_nested(mi.node))
+  seq = pat.has(mi.node, 'itt.chain(*self._source_iterators)') and pat.has(mi.node, 'self._source_iterators[0]')
+  its = pat.search(mi.node, '$its = self._source_iterators')
+  itv = its[0][1]['its'] if its else '_'
+  per_source = pat.has(mi.node, f'{itv} = [iter_fn($d) for $d in {itv}]') or pat.has(
+      mi.node, '$x = [iter_fn($d) for $d in self._source_iterators]')
   srcs = any(isinstance(x, ast.Assign) and is_self_attr(x.targets[0], '_source_iterators')
              and isinstance(x.value, ast.ListComp) and unparse(x.value.elt).startswith('iter(')
              and unparse(x.value.generators[0].iter) == 'data_sources' for x in walk_no_nested(mi.node))
   pm = [c for c in walk_no_nested(mi.node) if isinstance(c, ast.Call) and unparse(c.func) == 'piter_multiplex']
-  pm_ok = pm and unparse(kwarg(pm[0], 'input_iterators')) == 'iterators'
+  pm_ok = pm and unparse(kwarg(pm[0], 'input_iterators')) == itv
   if seq and per_source and srcs and pm_ok:
     ctx.ok(rule, mi, 'every source iterated: chained in order / one operator chain per source', mi.node)
   else:
@@ -179,29 +179,41 @@ def r3(ctx: Ctx):
   cn = repo.func(TR, 'TreeTransform.chain')
   loops = [l for l in walk_no_nested(cn.node) if isinstance(l, ast.For)]
   ok = False
+  accv = None
+  chp = cn.params()[1]
+  flat = pat.search(cn.node, f'$ts = {chp}.flatten_transform()')
   for l in loops:
-    if 'flatten_transform()' in unparse(l.iter) or unparse(l.iter) == 'transforms':
-      body = unparse(l)
-      if 'maybe_replace(input_transform=input_transform)' in body:
+    if flat and unparse(l.iter) == flat[0][1]['ts'] or 'flatten_transform()' in unparse(l.iter):
+      m_ = pat.search(l, f'$acc = {unparse(l.target)}.maybe_replace(input_transform=$acc)', nested=True)
+      if m_:
         ok = True
+        accv = m_[0][1]['acc']
   rets = [x for x in walk_no_nested(cn.node) if isinstance(x, ast.Return)]
-  if ok and any(unparse(r_.value) == 'input_transform' for r_ in rets) and 'self._chain_and_fuse(child)' in unparse(cn.node):
+  starts_self = accv is not None and pat.has(cn.node, f'{accv} = self')
+  if ok and starts_self and any(unparse(r_.value) == accv for r_ in rets) and pat.has(cn.node, f'self._chain_and_fuse({chp})'):
     ctx.ok(rule, cn, 'chain links each child stage onto the previous one; same name fuses', cn.node)
   else:
     ctx.fail(rule, cn, 'chain: for child in child.flatten_transform(): input_transform = child.maybe_replace(input_transform=input_transform)',
              'chaining does not append every stage of the child in order', node=cn.node)
   ft = repo.func(TR, 'TreeTransform.flatten_transform')
-  t = unparse(ft.node)
-  if 'self.input_transform.flatten_transform()' in t and 'ancestors + [self.maybe_replace(input_transform=None)]' in t:
+  anc = pat.search(ft.node, '$a = self.input_transform.flatten_transform()')
+  if anc and pat.has(ft.node, f'return {anc[0][1]["a"]} + [self.maybe_replace(input_transform=None)]'):
     ctx.ok(rule, ft, 'flatten: ancestors first, then self', ft.node)
   else:
     ctx.fail(rule, ft, 'flatten_transform: ancestors + [self]', 'stage order is not ancestors-first', node=ft.node)
   mk = repo.func(TR, 'TreeTransform.make')
-  t = unparse(mk.node)
-  loop_ok = any(isinstance(l, ast.For) and unparse(l.iter) == 'transforms'
-                and 'TransformRunner.from_transform(' in unparse(l) and 'runners.append(runner)' in unparse(l)
-                for l in walk_no_nested(mk.node))
-  if loop_ok and 'transforms = self.flatten_transform()' in t and 'ChainedRunner(runners)' in t:
+  fl = pat.search(mk.node, '$ts = self.flatten_transform()')
+  tsv = fl[0][1]['ts'] if fl else '_'
+  loop_ok = False
+  rsv = '_'
+  for l in walk_no_nested(mk.node):
+    if isinstance(l, ast.For) and unparse(l.iter) == tsv:
+      a_ = pat.search(l, f'$r = TransformRunner.from_transform({unparse(l.target)}, ___)', nested=True)
+      if a_:
+        b2 = pat.search(l, f'$rs.append({a_[0][1]["r"]})', nested=True)
+        if b2:
+          loop_ok, rsv = True, b2[0][1]['rs']
+  if loop_ok and fl and pat.has(mk.node, f'return ChainedRunner({rsv})'):
     ctx.ok(rule, mk, 'make: one runner per flattened stage, in order', mk.node)
   else:
     ctx.fail(rule, mk, 'make: runners = [TransformRunner.from_transform(t) for t in self.flatten_transform()]',
@@ -217,7 +229,7 @@ def r3(ctx: Ctx):
     if len(asg) == 1:
       acc = unparse(asg[0].targets[0])
       ok = (asg[0].value.args and unparse(asg[0].value.args[0]) == acc
-            and any(isinstance(s, ast.Expr) and unparse(s.value) == f'iterators.append({acc})' for s in l.body))
+            and any(isinstance(s, ast.Expr) and pat.match(f'$its.append({acc})', s.value) is not None for s in l.body))
   if ok:
     ctx.ok(rule, it, 'iterator = r.iterate(iterator, ...) for r in runners', loops[0])
   else:
@@ -234,8 +246,7 @@ def r4(ctx: Ctx):
            ' runner into its result queue')
   repo = ctx.repo
   nx = repo.func(TR, '_ChainedRunnerIterator.__next__')
-  t = unparse(nx.node)
-  if 'next(self._iterators[-1])' in t and 'AggregateResult(agg_result, agg_state=self.agg_state)' in t:
+  if pat.has(nx.node, 'next(self._iterators[-1])') and pat.has(nx.node, 'AggregateResult($r, agg_state=self.agg_state)'):
     ctx.ok(rule, nx, 'next(last stage); return value = AggregateResult(all stages)', nx.node)
   else:
     ctx.fail(rule, nx, '_ChainedRunnerIterator.__next__: next(self._iterators[-1]); StopIteration(AggregateResult(...))',
@@ -244,7 +255,8 @@ def r4(ctx: Ctx):
   for prop in ('agg_state', 'agg_result'):
     f = repo.func(TR, f'_ChainedRunnerIterator.{prop}')
     t = unparse(f.node)
-    ok = 'self.named_iterators(agg_only=True)' in t and f'it.{prop}.items()' in t and 'chain.from_iterable' in t
+    src = pat.search(f.node, '$its = self.named_iterators(agg_only=True)')
+    ok = bool(src) and pat.has(f.node, f'($i.{prop}.items() for $i in {src[0][1]["its"]}.values())') and 'chain.from_iterable' in t
     if ok:
       ctx.ok(rule, f, f'{prop}: union over every aggregating stage', f.node)
     else:
@@ -257,9 +269,10 @@ def r4(ctx: Ctx):
       ip = FuncInfo(st.module, '_async_run_single_stage.iterate_in_process', s)
   if ip is None:
     raise AnalysisError(f'{rule}: iterate_in_process not found')
-  t = unparse(ip.node)
-  ok = ('iter(input_queue)' in t and 'transform.make().iterate(' in t
-        and 'result_q.enqueue_from_iterator(iterator)' in t)
+  a_ = pat.search(ip.node, '$i = iter(input_queue)', nested=True)
+  b_ = pat.search(ip.node, '$it = transform.make().iterate($$src, ___)', nested=True)
+  ok = bool(a_) and bool(b_) and unparse(b_[0][0].value.args[0]) == a_[0][1]['i'] and pat.has(
+      ip.node, f'$q.enqueue_from_iterator({b_[0][1]["it"]})', nested=True)
   if ok:
     ctx.ok(rule, ip, 'in-process stage: make().iterate(iter(input_queue)) -> result_q', ip.node)
   else:
